@@ -177,27 +177,24 @@ func c04leafConf(p2 bool, key int64, it *vItem) (conf bool, verdict bool) {
 	return false, false
 }
 
-func VerifC04() {
-	l3install()
-	c, g1, g2 := verifGenClaims()
-	_ = c
+// c04token: an item map over the claim-key space: all claims right-typed with arbitrary
+// values (generator), the focus key (if any) dropped or replaced by an arbitrary item
+func c04token() (T *vItem, g1 *genP1, g2 *genP2, focus int, fkey int64, fit *vItem, hasFocus bool) {
+	_, g1, g2 = verifGenClaims()
 	p2 := g2 != nil
 	// the quantifier ranges over WELL-FORMED CBOR: text strings are valid UTF-8
 	ndAssume(c09textOK(g1, g2))
 	if g1 != nil {
 		ndAssume(utf8.ValidString(g1.profile))
 	}
-	focus := ndParam("focus", -1)
+	focus = ndParam("focus", -1)
 	var w []wireEntry
 	if p2 {
 		w = g2.wireAny()
 	} else {
 		w = g1.wireAny()
 	}
-	T := wireToItem(w)
-	var fkey int64
-	var fit *vItem
-	hasFocus := false
+	T = wireToItem(w)
 	if focus >= 0 {
 		if p2 {
 			fkey = c04keysP2[focus]
@@ -222,6 +219,13 @@ func VerifC04() {
 			T.put(fkey, fit, true)
 		}
 	}
+	return
+}
+
+func VerifC04() {
+	l3install()
+	T, g1, g2, focus, fkey, fit, hasFocus := c04token()
+	p2 := g2 != nil
 	// an unknown extra key is ignored
 	T.put(99999, &vItem{kind: ikUint, u: 7}, ndBool("extra.key"))
 	buf := verifEncodeItem(T)
